@@ -29,6 +29,8 @@ package usermanager
 //@   ensures credit: ret2 == nil ==> dbI64(bkt(UID), "UpCredit") > 0 && dbI64(bkt(UID), "DownCredit") > 0
 //@   ensures notExpired: ret2 == nil ==> dbI64(bkt(UID), "ExpiryTime") * 1000000000 >= old(clock()) - 999999999
 //@   ensures rates: ret2 == nil ==> int(ret0) == dbI64(bkt(UID), "UpRate") && int(ret1) == dbI64(bkt(UID), "DownRate")
+//@   # what GetUser hands to MakeValve, which panics on a rate that is not positive
+//@   ensures usableRates: ret2 == nil ==> ret0 > 0 && ret1 > 0
 
 // AuthoriseNewSession (C15): nil error only below the session cap, with credit, not expired.
 //@ func (*localManager).AuthoriseNewSession
